@@ -389,4 +389,32 @@ def c16(tier):
         ['lomond.persist.persist', 'lomond.websocket.WebSocket.connect', 'lomond.session.WebsocketSession.run'])
 
 
-PROPS = {'C16': c16, 'C17': c17, 'C19': c19, 'C10': c10, 'C07': c07, 'C08': c08, 'C09': c09, 'C13': c13, 'C03': c03, 'C02': c02, 'C05': c05, 'C01': c01, 'C04': c04, 'C14': c14}
+def c15(tier):
+    q = tier == 'quick'
+    S = lambda name, what, **P: Spec(name, 'checks.timers', 'run_timers', dict(P, xval_stride=P.get('xval_stride', 37)), what=what, logic=None, chunk=60)
+    K = 3 if q else 5
+    specs = []
+    W = ('real run loop on a virtual clock (symbolic non-decreasing Real); clock advances only in the selector wait by a symbolic dt in [0, poll] '
+         '(= poll iff nothing arrived); poll symbolic; %d loop iterations each with a solver-chosen server action; ' % K)
+    for r in ([0, 1, 7] if q else [0, 0.5, 1, 7, 30]):
+        specs.append(S('cadence-r%s' % r, W + 'ping_rate=%s, no timeouts, server actions {silent, Text}: Poll cadence p <= gap < 2p, first Poll at Ready, '
+                       'automatic Pings on the ping_rate grid (timely, never twice per period, none for r=0)' % r,
+                       K=K + 1, ping_rate=r, ping_timeout='none', close_timeout='none', actions=['silent', 'text'], app_close=False))
+    specs.append(S('ping-timeout', W + 'ping_timeout symbolic, ping_rate=1, server actions {silent, Pong}: Unresponsive iff more than t since Ready / last Pong, '
+                   'at the first housekeeping instant', K=K + 1, ping_rate=1, close_timeout='none', actions=['silent', 'pong'], app_close=False))
+    specs.append(S('close-timeout', W + 'close_timeout symbolic, application close() at a solver-chosen event, server actions {silent, Text, Close}: forced '
+                   'non-graceful Disconnected in [c, c+p] after the Close was sent, never after the handshake completed',
+                   K=K + 1, ping_rate=0, ping_timeout='none', actions=['silent', 'text', 'close']))
+    specs.append(S('all-timers', W + 'all three timers symbolic, ping_rate=7, actions {silent, Pong, Text, Close}, application close()', K=K, ping_rate=7))
+    specs.append(S('no-timeouts', 'ping_timeout=None and close_timeout=None: nothing may ever be forced', K=K, ping_rate=1,
+                   ping_timeout='none', close_timeout='none', actions=['silent', 'close']))
+    specs.append(S('close-timeout-zero', 'close_timeout=0 disables the close timeout', K=K, ping_rate=0, ping_timeout='none', close_timeout='zero',
+                   actions=['silent', 'text']))
+    return run_property('C15', tier, specs, 'model_checking', 'keep-alive, timeouts, polling', ENV_ASSUMPTIONS + [
+        'floats idealised as reals (z3 Real/Int arithmetic with ToInt for ceil)', 'zero handler time: the clock advances only inside the selector wait',
+        'ping_rate from a concrete grid (ceil(t/r)*r is non-linear in a symbolic r); bound: K loop iterations'],
+        ['lomond.session.WebsocketSession.run/_regular/_check_poll/_check_auto_ping/_check_ping_timeout/_check_close_timeout/_on_ready/_on_pong/session_time',
+         'lomond.websocket.WebSocket.close/send_ping', 'lomond.selectors.SelectorBase.wait/PollSelector.wait_readable'])
+
+
+PROPS = {'C15': c15, 'C16': c16, 'C17': c17, 'C19': c19, 'C10': c10, 'C07': c07, 'C08': c08, 'C09': c09, 'C13': c13, 'C03': c03, 'C02': c02, 'C05': c05, 'C01': c01, 'C04': c04, 'C14': c14}
